@@ -38,6 +38,53 @@ type Heading struct {
 	Level int
 	Text  string
 	Synth bool // the producer has no heading level in its source (PPTX slide title)
+	// Src, when set, says how the DOCX / ODT producers express the level (style chain, own or
+	// inherited marker, direct outline level); nil = the format's plain built-in heading style.
+	Src *headSrc
+}
+
+// styleDef is one style of a basedOn / parent chain.
+//
+//	builtin   DOCX: id HeadingK, name "heading K", w:outlineLvl K-1 (as Word writes it)
+//	          ODT:  Heading_20_K, display name "Heading K", default-outline-level K
+//	localized DOCX only: localized id (berschriftK), canonical name "heading K", w:outlineLvl
+//	outline   custom id and name, level only from w:outlineLvl / default-outline-level
+//	bare      umbrella style named "Heading" without any level (LibreOffice's parent of Heading 1..9)
+//	none      no heading marker at all
+type styleDef struct {
+	Kind  string
+	Level int
+}
+
+// headSrc: Chain[0] is the style the heading paragraph uses, Chain[i+1] its basedOn / parent.
+// The level a reader has to show is the nearest definition: the style's own marker before the
+// nearest ancestor's (ECMA-376 17.7.2 style inheritance; ODF: text:outline-level on text:h).
+type headSrc struct {
+	Chain  []styleDef
+	Direct int  // DOCX: w:outlineLvl on the paragraph itself (+1); 0 = none. Chain is then marker-free
+	NoAttr bool // ODT: text:h without text:outline-level (ODF default: level 1)
+}
+
+func (h *headSrc) String() string {
+	var p []string
+	for _, c := range h.Chain {
+		if c.Level > 0 {
+			p = append(p, fmt.Sprintf("%s%d", c.Kind, c.Level))
+		} else {
+			p = append(p, c.Kind)
+		}
+	}
+	s := strings.Join(p, ">")
+	if s == "" {
+		s = "-"
+	}
+	if h.Direct > 0 {
+		s += fmt.Sprintf("+direct%d", h.Direct)
+	}
+	if h.NoAttr {
+		s += "+noattr"
+	}
+	return s
 }
 
 type Para struct{ Text string }
